@@ -594,6 +594,66 @@ func vfcPartSetCase(o *vfOut, r *vfRand, big bool) string {
 	return fmt.Sprintf("p:%d:%d:%x:%d", len(data), size, full.Hash().Bytes()[:8], nb)
 }
 
+// vfcUnevenCase: what a Byzantine proposer can send — a part set whose parts do NOT all have the
+// same size (the header only commits to the Merkle root of the leaves, whatever their lengths).
+// Every part carries a valid proof, so all are added; the reassembled bytes must be exactly the
+// concatenation of the leaves the root commits to (seeded change C13_d: a reader that places part
+// i at offset i * len(part 0)).
+func vfcUnevenCase(o *vfOut, r *vfRand) string {
+	n := 2 + r.Intn(5)
+	leaves := make([][]byte, n)
+	var want []byte
+	for i := range leaves {
+		leaves[i] = r.Bytes(r.Pick(1, 2, 7, 32, 33, 64, 100, 1+r.Intn(200)))
+		want = append(want, leaves[i]...)
+	}
+	root, proofs := merkle.SimpleProofsFromByteSlices(leaves)
+	hdr := PartSetHeader{Total: uint32(n), Hash: common.BytesToHash(root)}
+	ps := NewPartSetFromHeader(hdr)
+	o.Op(vfcModel, fmt.Sprintf("newhdr total=%d hash=%s", hdr.Total, vfHex(hdr.Hash.Bytes())), "ok")
+	order := make([]int, n)
+	for i := range order {
+		order[i] = i
+	}
+	for i := n - 1; i > 0; i-- {
+		j := r.Intn(i + 1)
+		order[i], order[j] = order[j], order[i]
+	}
+	for _, i := range order {
+		p := &Part{Index: uint32(i), Bytes: append([]byte{}, leaves[i]...), Proof: *proofs[i]}
+		op := vfcAddOp(p)
+		verdict := "panic"
+		if vfGuard(o, "panic-addpart", func() string { return "uneven" }, func() {
+			added, err := ps.AddPart(vfcCopyPart(p))
+			verdict = vfcAddVerdict(added, err)
+		}) {
+			return "u:panic"
+		}
+		cpl := 0
+		if ps.IsComplete() {
+			cpl = 1
+		}
+		o.Op(vfcModel, op, fmt.Sprintf("%s %d %d", verdict, ps.Count(), cpl))
+		if verdict != "added" {
+			o.Viol("genuine-part-refused:uneven", fmt.Sprintf("total=%d index=%d len=%d verdict=%s", n, i, len(leaves[i]), verdict))
+		}
+	}
+	cpl := "0"
+	if ps.IsComplete() {
+		cpl = "1"
+	}
+	o.Op(vfcModel, "complete", cpl)
+	res, got := vfcReadAll(ps)
+	o.Op(vfcModel, "read", res)
+	if !ps.IsComplete() {
+		o.Viol("incomplete-after-all-genuine", fmt.Sprintf("uneven total=%d", n))
+	} else if !bytes.Equal(got, want) {
+		o.Viol("reassembled-differs", fmt.Sprintf("uneven part sizes: total=%d committed %d bytes, reader gave %d bytes (equal to the committed concatenation: false)", n, len(want), len(got)))
+	}
+	o.Stat("partset.uneven")
+	return fmt.Sprintf("u:%d:%x", n, root[:6])
+}
+
 func TestVerifC13(t *testing.T) {
 	o := vfOpen()
 	defer o.Close()
@@ -611,6 +671,8 @@ func TestVerifC13(t *testing.T) {
 			nontrivial = key != "m:0"
 		case i%97 == 1:
 			key = vfcPartSetCase(o, r, true)
+		case i%11 == 4:
+			key = vfcUnevenCase(o, r)
 		default:
 			key = vfcPartSetCase(o, r, false)
 			nontrivial = key != "p:empty"
